@@ -536,7 +536,7 @@ double Find_Root(std::function<double(double)> func, double xLeft, double xRight
 		std::cerr << "Error in libphysica::Find_Root(): Function returns nan at the brackets." << std::endl;
 		std::exit(EXIT_FAILURE);
 	}
-	else if(fLeft * fRight >= 0.0)
+	else if(fLeft == 0.0 || fRight == 0.0 || Sign(fLeft) == Sign(fRight))	// (the product fLeft * fRight can underflow to zero)
 	{
 		if(fLeft == 0)
 			return xLeft;
